@@ -8,7 +8,9 @@ import (
 
 // detVal builds a small valid value of a schema without rapid (fuzz seeds): lists and maps get
 // two entries, byte strings a few bytes.
-func detVal(k *kind, rng *uint64) gv {
+// With adv, maps get four adversarial keys instead (addresses differing only in the first or only
+// in the last byte, strings differing in case / sharing prefixes, numbers around the var-uint steps).
+func detVal(k *kind, rng *uint64, adv bool) gv {
 	r := func() uint64 { return mix(rng) }
 	bytesN := func(n int) ev.B {
 		b := make(ev.B, n)
@@ -42,17 +44,40 @@ func detVal(k *kind, rng *uint64) gv {
 	case kBig:
 		return gv{B: nb(stripZeros(bytesN(int(r() % 4))))}
 	case kList:
-		return gv{L: []gv{detVal(k.elem, rng), detVal(k.elem, rng)}}
+		return gv{L: []gv{detVal(k.elem, rng, adv), detVal(k.elem, rng, adv)}}
 	case kMap:
+		if adv {
+			var l []gv
+			for i := 0; i < 4; i++ {
+				var key gv
+				switch {
+				case k.key.k == kAddr || k.key.k == kAddrVB:
+					// addrPool[8..12] vary byte 0 of addrPool[0], addrPool[13..17] vary byte 19
+					key = gv{B: append(ev.B(nil), addrPool[[]int{8, 9, 13, 14}[i]]...)}
+				case k.order == ordNum:
+					key = gv{U: []uint64{0xFC, 0xFD, 0xFFFF, 0x10000}[i]}
+				case k.keyFrom >= 0:
+					key = gv{B: ev.B(pubkeyPool[[]int{0, 6, 8, 9}[i]])} // base, upper-case, shared prefix
+				default:
+					key = gv{B: ev.B([]string{"a", "A", "ab", "aB"}[i])}
+				}
+				val := detVal(k.elem, rng, adv)
+				if k.keyFrom >= 0 {
+					val.L[k.keyFrom] = gv{B: key.B}
+				}
+				l = append(l, gv{L: []gv{key, val}})
+			}
+			return gv{L: l}
+		}
 		var l []gv
 		seen := map[string]bool{}
 		for len(l) < 2 {
 			var key, val gv
 			if k.keyFrom >= 0 {
-				val = detVal(k.elem, rng)
+				val = detVal(k.elem, rng, adv)
 				key = gv{B: val.L[k.keyFrom].B}
 			} else {
-				key, val = detVal(k.key, rng), detVal(k.elem, rng)
+				key, val = detVal(k.key, rng, adv), detVal(k.elem, rng, adv)
 			}
 			if id := keyID(k, key); !seen[id] {
 				seen[id] = true
@@ -63,7 +88,7 @@ func detVal(k *kind, rng *uint64) gv {
 	case kStruct:
 		l := make([]gv, len(k.fields))
 		for i, f := range k.fields {
-			l[i] = detVal(f.k, rng)
+			l[i] = detVal(f.k, rng, adv)
 		}
 		return gv{L: l}
 	}
@@ -86,7 +111,7 @@ func decodeFuzzC04(d []byte) (c04Case, bool) {
 }
 
 // FuzzC04 drives the arbitrary-bytes mode of C04 with coverage-guided inputs. Seeds: for every
-// registered type one small genuine encoding, and for every type with an element count the same
+// registered type one small genuine encoding (map types: three more with adversarial keys), and for every type with an element count the same
 // encoding with its first count rewritten to hostile values (0xFD/0xFE/0xFF prefixes, huge counts).
 func FuzzC04(f *testing.F) {
 	hostile := [][]byte{
@@ -106,8 +131,14 @@ func FuzzC04(f *testing.F) {
 	for i, name := range typeNames {
 		e := byName[name]
 		rng := uint64(i) + 1
-		enc, marks := refEncode(e.k, detVal(e.k, &rng))
+		enc, marks := refEncode(e.k, detVal(e.k, &rng, false))
 		f.Add(append([]byte{byte(i)}, enc...))
+		if hasKind(e.k, kMap) {
+			for j := 0; j < 3; j++ {
+				adv, _ := refEncode(e.k, detVal(e.k, &rng, true))
+				f.Add(append([]byte{byte(i)}, adv...))
+			}
+		}
 		for _, m := range marks {
 			if !m.Count {
 				continue
